@@ -21,6 +21,11 @@ package main
 //                                                     a dictionary whose values are Uint32 | Ref[Uint32] | Ref[boc.Cell];
 //                                                     references may be library cells ('x n2 bits) resolved through
 //                                                     libs = ((libbits target)...) or pruned branches ('x n1 bits)
+//   c05.count  (n hashmapE cell)                    countLeafs / hashmapAugExtraCountLeafs (hooks; n = 256 also through
+//                                                     BlockExtra.InMsgDescrLength / OutMsgDescrLength) -> n | 'err
+//   c05.lsize  (m bits)                             loadLabelSize -> (length unread-bits) | 'err
+//   c05.aug    (n cell)                             HashmapAugE[key, Uint32, Uint32] Unmarshal, Keys()/Values()
+//   c05.cfg    (build (step...))                    histories on tlb.ConfigParams objects incl. CloneKeepingSubsetOfKeys
 //   c05.addr   (((wc addr value)...))                 AddressWithWorkchain keys given as values: Put, Marshal,
 //                                                     Unmarshal -> (cell ((wc addr value)...)) | 'err
 // A cell tree is (b<bits> (child ...)).  Keys are printed as their bits,
@@ -434,6 +439,10 @@ func init() {
 	execs["c05.raw"] = execC05Raw
 	execs["c05.hist"] = execC05Hist
 	execs["c05.dec"] = execC05Dec
+	execs["c05.count"] = execC05Count
+	execs["c05.lsize"] = execC05Lsize
+	execs["c05.aug"] = execC05Aug
+	execs["c05.cfg"] = execC05Cfg
 	execs["c05.decode"] = execC05Decode
 	execs["c05.cells"] = execC05Cells
 	execs["c05.ops"] = execC05Ops
@@ -785,6 +794,7 @@ type c05Tree struct {
 	raw   bool
 	vbits string
 	vrefs []*c05Cell
+	xbits string // augmented dictionaries: the extra of a fork
 }
 
 func (t *c05Tree) sx() sx.V {
@@ -862,7 +872,7 @@ func (t *c05Tree) cells(m int) (*c05Cell, bool) {
 	}
 	l, ok1 := t.l.cells(m2)
 	r, ok2 := t.r.cells(m2)
-	b := c05Label(t.form, m, t.label)
+	b := c05Label(t.form, m, t.label) + t.xbits
 	return &c05Cell{bits: b, refs: []*c05Cell{l, r}}, ok1 && ok2 && len(b) <= 1023
 }
 
@@ -966,4 +976,235 @@ func (t *c05Tree) leaves(out *[]*c05Tree) {
 	}
 	t.l.leaves(out)
 	t.r.leaves(out)
+}
+
+// ---- round 4: leaf counting, augmented dictionaries, ConfigParams histories -----
+
+var c05CountEImpls = map[int]func(c *boc.Cell) (int, error){
+	1: tlb.VerifCountLeafsE[tlb.Uint1], 2: tlb.VerifCountLeafsE[tlb.Uint2], 7: tlb.VerifCountLeafsE[tlb.Uint7],
+	8: tlb.VerifCountLeafsE[tlb.Uint8], 9: tlb.VerifCountLeafsE[tlb.Uint9], 15: tlb.VerifCountLeafsE[tlb.Uint15],
+	16: tlb.VerifCountLeafsE[tlb.Uint16], 32: tlb.VerifCountLeafsE[tlb.Uint32], 64: tlb.VerifCountLeafsE[tlb.Uint64],
+	80: tlb.VerifCountLeafsE[tlb.Bits80], 96: tlb.VerifCountLeafsE[tlb.Bits96], 256: tlb.VerifCountLeafsE[tlb.Bits256],
+	288: tlb.VerifCountLeafsE[tlb.AddressWithWorkchain], 512: tlb.VerifCountLeafsE[tlb.Bits512],
+}
+
+func c05BocOfSx(v sx.V) (*boc.Cell, bool) {
+	pc, ok := c05CellOfSx(v)
+	if !ok {
+		return nil, false
+	}
+	bc, err := pc.toBoc()
+	return bc, err == nil
+}
+
+// c05.count: (n hashmapE cell) -> n<count> | 'err
+func execC05Count(in sx.V) sx.V {
+	n, e := in.List[0].I(), in.List[1].Bool
+	bc, ok := c05BocOfSx(in.List[2])
+	if !ok {
+		return sx.L(sx.A("harness-error"), sx.A("cell"))
+	}
+	if !e {
+		k, err := tlb.VerifCountLeafs(n, bc)
+		if err != nil {
+			return sx.A("err")
+		}
+		return sx.N(uint64(k))
+	}
+	f, ok := c05CountEImpls[n]
+	if !ok {
+		return sx.L(sx.A("harness-error"), sx.A("keytype"))
+	}
+	k, err := f(bc)
+	if n == 256 {
+		// the public entry points: both must say what the helper says
+		extra := tlb.BlockExtra{InMsgDescrCell: *bc, OutMsgDescrCell: *bc}
+		a, errA := extra.InMsgDescrLength()
+		b, errB := extra.OutMsgDescrLength()
+		a2, errA2 := extra.InMsgDescrLength() // asking twice must not matter
+		if (errA != nil) != (err != nil) || (errB != nil) != (err != nil) || (errA2 != nil) != (err != nil) ||
+			(err == nil && (a != k || b != k || a2 != k)) {
+			return sx.A("inconsistent")
+		}
+	}
+	if err != nil {
+		return sx.A("err")
+	}
+	return sx.N(uint64(k))
+}
+
+// c05.lsize: (m bits) -> (length unread) | 'err
+func execC05Lsize(in sx.V) sx.V {
+	bc, err := (&c05Cell{bits: in.List[1].Bits}).toBoc()
+	if err != nil {
+		return sx.L(sx.A("harness-error"), sx.A("cell"))
+	}
+	ln, err := tlb.VerifLoadLabelSize(in.List[0].I(), bc)
+	if err != nil {
+		return sx.A("err")
+	}
+	return sx.L(sx.N(uint64(ln)), sx.N(uint64(bc.BitsAvailableForRead())))
+}
+
+func c05AugRun[K c05Key](c *boc.Cell) sx.V {
+	var h tlb.HashmapAugE[K, tlb.Uint32, tlb.Uint32]
+	if err := tlb.Unmarshal(c, &h); err != nil {
+		return sx.A("err")
+	}
+	ks, vs := h.Keys(), h.Values()
+	if len(ks) != len(vs) {
+		return sx.A("inconsistent")
+	}
+	var out []sx.V
+	for i := range ks {
+		kb, err := c05KeyBits(ks[i])
+		if err != nil {
+			return sx.A("err")
+		}
+		out = append(out, sx.L(sx.Bits(kb), sx.N(uint64(vs[i]))))
+	}
+	return sx.L(out...)
+}
+
+var c05AugImpls = map[int]func(c *boc.Cell) sx.V{
+	8: c05AugRun[tlb.Uint8], 16: c05AugRun[tlb.Uint16], 32: c05AugRun[tlb.Uint32], 64: c05AugRun[tlb.Uint64],
+	96: c05AugRun[tlb.Bits96], 256: c05AugRun[tlb.Bits256],
+}
+
+// c05.aug: (n cell) -> ((key value)...) | 'err
+func execC05Aug(in sx.V) sx.V {
+	f, ok := c05AugImpls[in.List[0].I()]
+	if !ok {
+		return sx.L(sx.A("harness-error"), sx.A("keytype"))
+	}
+	bc, ok := c05BocOfSx(in.List[1])
+	if !ok {
+		return sx.L(sx.A("harness-error"), sx.A("cell"))
+	}
+	return f(bc)
+}
+
+func c05U32OfBits(s string) uint32 {
+	var v uint32
+	for i := 0; i < len(s); i++ {
+		v = v<<1 | uint32(s[i]-'0')
+	}
+	return v
+}
+
+func c05ValueCell(v uint32) *boc.Cell {
+	c := boc.NewCell()
+	_ = c.WriteUint(uint64(v), 32)
+	return c
+}
+
+// c05.cfg: (build (step...)) histories on tlb.ConfigParams objects, see H05.v
+func execC05Cfg(in sx.V) sx.V {
+	var objs []*tlb.ConfigParams
+	b := in.List[0]
+	switch b.Head() {
+	case "new":
+		var keys []tlb.Uint32
+		var values []tlb.Ref[boc.Cell]
+		for _, kv := range c05KVsOf(b.List[1]) {
+			keys = append(keys, tlb.Uint32(c05U32OfBits(kv.k)))
+			values = append(values, tlb.Ref[boc.Cell]{Value: *c05ValueCell(kv.v)})
+		}
+		objs = append(objs, &tlb.ConfigParams{Config: tlb.NewHashmap(keys, values)})
+	default:
+		bc, ok := c05BocOfSx(b.List[1])
+		if !ok {
+			return sx.L(sx.A("harness-error"), sx.A("cell"))
+		}
+		var p tlb.ConfigParams
+		if err := tlb.Unmarshal(bc, &p); err != nil {
+			return sx.A("err")
+		}
+		objs = append(objs, &p)
+	}
+	items := func(p *tlb.ConfigParams) sx.V {
+		its, ks, vs := p.Config.Items(), p.Config.Keys(), p.Config.Values()
+		if len(ks) != len(its) || len(vs) != len(its) {
+			return sx.A("inconsistent")
+		}
+		var out []sx.V
+		for i, it := range its {
+			if ks[i] != it.Key {
+				return sx.A("inconsistent")
+			}
+			vc := it.Value.Value
+			vc.ResetCounters()
+			v, err := vc.ReadUint(32)
+			if err != nil {
+				return sx.A("badvalue")
+			}
+			out = append(out, sx.L(sx.Bits(c05Bin(int(it.Key>>16), 16)+c05Bin(int(it.Key&0xffff), 16)), sx.N(v)))
+		}
+		return sx.L(out...)
+	}
+	var out []sx.V
+	for _, st := range in.List[1].List {
+		if len(st.List) < 2 || st.List[1].I() >= len(objs) {
+			out = append(out, sx.L(sx.A("harness-error"), sx.A("object")))
+			continue
+		}
+		p := objs[st.List[1].I()]
+		switch {
+		case st.Head() == "items" && len(st.List) == 2:
+			out = append(out, items(p))
+		case st.Head() == "marshal" && len(st.List) == 2:
+			c := boc.NewCell()
+			if err := tlb.Marshal(c, *p); err != nil {
+				out = append(out, sx.A("err"))
+			} else {
+				out = append(out, c05CellSx(c))
+			}
+		case st.Head() == "get" && len(st.List) == 3:
+			if v, ok := p.Config.Get(tlb.Uint32(c05U32OfBits(st.List[2].Bits))); ok {
+				vc := v.Value
+				vc.ResetCounters()
+				x, err := vc.ReadUint(32)
+				if err != nil {
+					out = append(out, sx.A("badvalue"))
+				} else {
+					out = append(out, sx.L(sx.N(x)))
+				}
+			} else {
+				out = append(out, sx.A("none"))
+			}
+		case st.Head() == "put" && len(st.List) == 4:
+			p.Config.Put(tlb.Uint32(c05U32OfBits(st.List[2].Bits)), tlb.Ref[boc.Cell]{Value: *c05ValueCell(uint32(st.List[3].U64()))})
+			out = append(out, sx.A("ok"))
+		case st.Head() == "clone" && len(st.List) == 3:
+			var keys []uint32
+			for _, k := range st.List[2].List {
+				keys = append(keys, c05U32OfBits(k.Bits))
+			}
+			before := append([]uint32{}, keys...)
+			cl := p.CloneKeepingSubsetOfKeys(keys)
+			same := len(before) == len(keys)
+			for i := range before {
+				same = same && before[i] == keys[i]
+			}
+			if !same {
+				out = append(out, sx.A("keys-argument-changed"))
+			} else {
+				out = append(out, sx.A("ok"))
+			}
+			objs = append(objs, &cl)
+		case st.Head() == "decode" && len(st.List) == 3:
+			bc, ok := c05BocOfSx(st.List[2])
+			if !ok {
+				return sx.L(sx.A("harness-error"), sx.A("cell"))
+			}
+			if err := tlb.Unmarshal(bc, p); err != nil {
+				out = append(out, sx.A("err"))
+			} else {
+				out = append(out, sx.A("ok"))
+			}
+		default:
+			out = append(out, sx.L(sx.A("harness-error"), sx.A("step")))
+		}
+	}
+	return sx.L(out...)
 }
